@@ -53,12 +53,15 @@ struct WsCoin {
 struct WsLedger {
     bool ok{true};
     std::string why;                        //!< model replay failure (never expected on a chain the node accepted)
+    uint256 tip;                            //!< active tip the ledger was computed for
     int tip_height{0};
     CAmount trusted{0}, untrusted_pending{0}, immature{0};
     std::map<COutPoint, WsCoin> coins;      //!< every output paying a wallet script that neither the active chain nor the mempool spends
     std::map<COutPoint, CAmount> spendable; //!< trusted, mature, value >= 1 sat: what AvailableCoins() with default arguments must list (before LockCoin)
     std::set<Txid> mempool;                 //!< transactions in the node mempool
     std::set<Txid> in_chain;                //!< transactions of the active chain
+    RefUtxo chain_utxo;                     //!< the model's complete UTXO map of the active chain (RefLedger replay), for callers that build transactions
+    std::vector<CTransactionRef> mempool_txs; //!< node mempool, txid order
 };
 
 /** The wallet's own answers. */
@@ -88,6 +91,12 @@ CScript WalletSimFixedScript(OutputType type, bool internal, int index);
  *  at tip 104 they have 100, 99, 98 confirmations (the wallet counts a coinbase as mature from 101). Heights 1-4 and 8.. pay the
  *  anyone-can-spend P2WSH (1-4 are spendable in block 105). Blocks are built once per process. Do not mix with LoadBase on one node. */
 std::vector<uint256> LoadWalletBase(ChainSim& sim, int n = 104);
+
+/** Chain UTXO of `L` with the node mempool applied on top (mempool-created coins get height -1). */
+RefUtxo WsUtxoWithMempool(const WsLedger& L);
+/** From `candidates` (any order, duplicates allowed) pick, in dependency order, the transactions the MODEL accepts on top of `utxo` in a
+ *  block of `height` (inputs exist, no immature coinbase spend, in >= out, height-based nLockTime below the height); returns {txs, fees}. */
+std::pair<std::vector<CTransactionRef>, CAmount> WsSelectValid(RefUtxo utxo, int height, const std::vector<CTransactionRef>& candidates);
 
 class WalletSim
 {
@@ -127,6 +136,10 @@ public:
                                               uint32_t sequence = 0xfffffffd, uint32_t locktime = 0, uint32_t version = 2);
     /** Transactions in the node mempool (txid order). */
     std::vector<CTransactionRef> MempoolTxs() const;
+    /** Build a block on `parent` holding the model-valid part of `candidates` (coinbase to `coinbase_spk`, default anyone-can-spend) and
+     *  deliver it. `base` may carry the model UTXO of `parent` to save a replay. */
+    struct Mined { std::shared_ptr<const CBlock> block; ChainSim::Delivery delivery; std::vector<CTransactionRef> txs; };
+    Mined Mine(const uint256& parent, const std::vector<CTransactionRef>& candidates, const CScript& coinbase_spk = {}, uint32_t extra_nonce = 0, const RefUtxo* base = nullptr);
 
     // ---- independent ledger ---------------------------------------------------------------------------------------
     WsLedger Ledger() const;
@@ -143,6 +156,7 @@ public:
     Floating FloatingTxs() const;
     /** AbandonTransaction on every alive floating transaction the wallet holds and allows to abandon; returns how many. */
     int AbandonFloating();
+    int AbandonFloating(const Floating& f);
 
     // ---- lifecycle (for persistence checks) ---------------------------------------------------------------------------
     /** Detach from the chain and destroy the CWallet (closes the database). */
